@@ -4,7 +4,8 @@
      Table(lines, cols)   lines = the list as LeapCompile's line records (comment / blank / data <<NTP day, difference>>),
                           cols  = the six observed columns: corr, d, s as <<"v", n>> | <<"lo", 0>> | <<"hi", 0>>,
                                   ymd as <<"v", y, m, d>>, ymcw as <<"v", y, m, c, w>> (w: 1 = Monday .. 7 = Sunday),
-                                  hms as <<"t", h, m, s>>, sentinels as <<"z", 0>> (all-zero word) and <<"hi", 0>>.
+                                  hms as <<"t", h, m, s>>, sentinels as <<"z", 0>> (all-zero word) and <<"hi", 0>>;
+                                  ymdw / ymcww: <<packed word in the table, packed word the library's reader forms for that day>>.
    The event is accepted iff every column is the column LeapCompile!SColumns demands: same length, same sentinels,
    and entry i of every column denotes the last second before row i's instant -- ymd and ymcw must *denote* that day
    (Greg!RD, Greg!NthWdOfMonth), not merely match a packed word.                                                  *)
@@ -34,7 +35,9 @@ ColumnsOk(lines, cols) ==
           /\ cols.hms[i] = (IF c.hms[i][1] = "t" THEN <<"t">> \o c.hms[i][2] ELSE c.hms[i])
           /\ IF i = 1 THEN cols.ymd[i] = <<"z", 0>> /\ cols.ymcw[i] = <<"z", 0>>
              ELSE IF i = n THEN cols.ymd[i] = <<"hi", 0>> /\ cols.ymcw[i] = <<"hi", 0>>
-             ELSE DayOfYmd(cols.ymd[i]) = c.day[i][2] /\ DayOfYmcw(cols.ymcw[i]) = c.day[i][2]
+             ELSE /\ DayOfYmd(cols.ymd[i]) = c.day[i][2] /\ DayOfYmcw(cols.ymcw[i]) = c.day[i][2]
+                  \* <<word in the table, word the library forms when it reads that day>>: consumers compare whole words
+                  /\ cols.ymdw[i][1] = cols.ymdw[i][2] /\ cols.ymcww[i][1] = cols.ymcww[i][2]
      /\ LC!WellFormed(lines)
 
 TInit == l = 1
